@@ -103,6 +103,10 @@ func (d *Decoder) DecodeUint(data []byte) (uint64, error) {
 		if len(data) < 9 {
 			return 0, errors.New("not enough data for 8-byte U64")
 		}
+		// Validate encoding: the 9-byte form is only canonical for x >= 2^56
+		if binary.LittleEndian.Uint64(data[1:9]) < (uint64(1) << 56) {
+			return 0, errors.New("invalid U64 encoding")
+		}
 		return binary.LittleEndian.Uint64(data[1:9]), nil
 	}
 
